@@ -319,13 +319,7 @@ func c04SucceedTable(e *Env, s *Sched) {
 	walkFn, neg := s.followForwarders(fn)
 	if qc := s.quantifierCall(walkFn); qc != nil && len(ir.Loops(walkFn)) == 0 {
 		// answer = [!] ContainsFunc(nodes, p): "all nodes are fine" is `!Contains(nodes, notFine)`
-		var pred *ssa.Function
-		switch x := ir.Resolve(qc.Call.Args[1]).(type) {
-		case *ssa.MakeClosure:
-			pred, _ = x.Fn.(*ssa.Function)
-		case *ssa.Function:
-			pred = x
-		}
+		pred := funcOfValue(qc.Call.Args[1])
 		isContains := strings.HasPrefix(ir.CalleeName(&qc.Call), "slices.ContainsFunc")
 		// the function's answer in terms of the call
 		answerNeg := neg
